@@ -606,6 +606,13 @@ static int do_call (ctx *c, char *s)
             }
           else { bad (c, "bad-charbuf-token", t); goto fail; }
           break;
+        case 'w': case 'v':
+          {
+            extern FILE *drv_stream (int);
+            FILE *fp = drv_stream (*sp == 'w');
+            if (!fp) { bad (c, "no-stream-open", t); goto fail; }
+            ia[ni++] = (long) fp; break;
+          }
         case 'P': case 'p':
           if (t[0] == '0') { a->ptr = NULL; ia[ni++] = 0; }
           else if (t[0] == 'L')
@@ -739,6 +746,7 @@ fail:
 }
 
 #include "extra.inc"
+FILE *drv_stream (int w) { return w ? WS : RS; }
 
 /* ---------------------------------------------------------------- crash capture */
 static void on_signal (int sig)
